@@ -193,6 +193,57 @@ def cmp_cases(rnd, n):
     return out
 
 
+def nat_cases(rnd, n):
+    """natural-order comparison beyond the TLC arena: digit runs of different length, leading zeros, white space inside and in front,
+    and a dest without a terminator that consists of white space or digits up to the end of the arena"""
+    out = []
+    fixed = [("file10", "file9"), ("file9", "file10"), ("x 12", "x12"), ("1.010", "1.01"), ("007", "7"), ("a001b", "a01b"), ("a01", "a1"), ("  12", "12"),
+             ("pic 5", "pic05"), ("1-2", "1-02"), ("abc", "ABC"), ("a10b2", "a10b10"), ("100", "99"), ("0.5", "0.49"), ("", " "), ("12 ", "12")]
+    al = [97, 98, 65, 48, 49, 50, 57, 32, 46]
+    for fn, w in (("strnatcmp_s", 1), ("strnatcasecmp_s", 1), ("wcsnatcmp_s", 4), ("wcsnaticmp_s", 4)):
+        pairs = [(list(map(ord, a)), list(map(ord, b))) for a, b in fixed]
+        for _ in range(n):
+            L = rnd.randint(1, 10)
+            a = [rnd.choice(al) for _ in range(L)]
+            r = rnd.random()
+            if r < 0.4:
+                b = list(a)
+                k = rnd.randrange(L)
+                b[k] = rnd.choice(al)
+            elif r < 0.6:
+                b = a + [rnd.choice(al)]
+            else:
+                b = [rnd.choice(al) for _ in range(rnd.randint(1, 10))]
+            pairs.append((a, b))
+        for _ in range(n // 3):           # runs that a scan without a bound follows past dmax
+            k = rnd.randint(1, 8)
+            pairs.append(([rnd.choice([32, 32, 9]) for _ in range(k)], [32, 97]))
+            pairs.append(([rnd.choice([49, 50, 57]) for _ in range(k)], [rnd.choice([49, 50, 57]) for _ in range(k + 2)]))
+            pairs.append(([48] + [rnd.choice([48, 49]) for _ in range(k)], [48] + [rnd.choice([48, 49]) for _ in range(k + 2)]))
+        for dstr, sstr in pairs:
+            dterm = rnd.random() < 0.65
+            dmax = (len(dstr) + rnd.choice([1, 1, 3])) if dterm else max(1, len(dstr))
+            if not dterm and not dstr:
+                dterm, dmax = True, 1
+            dcells = max(dmax, len(dstr) + (1 if dterm else 0))
+            # src first (terminated), dest last: its extent ends with the arena
+            a = blank(1)
+            spos = len(a) + 1
+            a += list(sstr) + [0] + blank(2)
+            dpos = len(a) + 1
+            blk = list(dstr) + ([0] if dterm else [])
+            while len(blk) < dcells:
+                blk.append(G(len(a) + len(blk)))
+            a += blk
+            slen = 0
+            if w == 4:      # the wide functions bound the source as well
+                slen = len(sstr) + rnd.choice([1, 1, 2]) if rnd.random() < 0.85 else max(1, len(sstr))
+                need = spos + slen - 1
+                # the cells behind the source's terminator up to slen exist (the two blanks, then dest)
+            out.append(case(fn, w, dpos, dmax, spos, slen, a))
+    return out
+
+
 def password_cases(rnd, n):
     """strispassword_s needs strings of 6..31 characters: beyond the TLC arena, seeded here"""
     out = []
@@ -270,7 +321,7 @@ def cases(family, seed, tier):
     if family == "strcopy":
         return copy_cases(rnd, k) + cat_cases(rnd, k)
     if family in ("query2", "query2_small"):
-        return find_cases(rnd, k * 5) + cmp_cases(rnd, k * 5)
+        return find_cases(rnd, k * 5) + cmp_cases(rnd, k * 5) + nat_cases(rnd, k * 5)
     if family == "query1":
         return password_cases(rnd, k * 10)
     if family == "strfld":
